@@ -607,6 +607,34 @@ class Run:
                           else f"TN {N(tname_id(b._name, names))} {C.cz(b._value)}" for b in t2._nodes])
             cenv = C.clist([f"({N(tname_id(nm, names))}, {C.cz(v)})" for nm, v in env.items()])
             f_set.add(f"({p1}, {cenv}, {p2}, {C.cz(v2)})", dict(case, kind="set_terminals", env=env))
+        # terminals are bound per NODE: two nodes may carry the same name and different values (hand-built trees; grafts of
+        # differently rebound copies: A = t.set_terminals(x0=a), B = t.set_terminals(x0=b), A.concat(i, B.subtree(j))).  Twin trees
+        # f(S, S') whose halves print identically and differ in the values their terminals carry:
+        rng = self.ctx.rng
+        for spec in specs:
+            if not any(e[0] == "T" for e in spec) or len(spec) > 12:
+                continue
+            shift = rng.randrange(1, 50)
+            twin_r = [e if e[0] != "T" else ("T", e[1], e[2] + shift) for e in spec]
+            for twin in ([("F", 2 + rng.randrange(2))] + list(spec) + twin_r, [("F", 2 + rng.randrange(2))] + twin_r + list(spec)):
+                t = L.build(twin)
+                case = dict(kind="call_int", spec=twin, twin=True)
+                got, exp = t(), ref_int(twin)
+                rep.count(family + "-twin", tuple(map(tuple, map(lambda e: tuple(map(str, e)), twin))))
+                if got != exp:
+                    rep.problem(family, "tree() is not the value of the expression it denotes (equal-printing sub-expressions whose terminals carry different values)",
+                                case, "call", True, got, exp, "C09_call_is_eval")
+                # the same tree obtained through the public operations: rebind two copies, graft one half
+                host = L.build([("F", twin[0][1])] + list(spec) + list(spec))
+                env_l = {e[1]: e[2] for e in twin[1:1 + len(spec)] if e[0] == "T"}
+                env_r = {e[1]: e[2] for e in twin[1 + len(spec):] if e[0] == "T"}
+                A, B = host.set_terminals(**env_l), host.set_terminals(**env_r)
+                G = A.concat(1 + len(spec), B.subtree(1 + len(spec)))
+                if G() != exp or str(G) != str(t):
+                    rep.problem(family, "concat of a differently rebound copy's subtree: the value is not that of the expression the graft denotes",
+                                dict(case, via="set_terminals+subtree+concat"), "call", True, G(), exp, "C09_call_is_eval")
+                names = []
+                f_call.add(f"({self.cnodes(twin, C.cz, names)}, {C.cz(got)})", case)
         rep.sample(dict(family=family, spec=specs[-1], value=L.build(specs[-1])(), str=str(L.build(specs[-1]))))
 
     def eq_pairs(self, specs):
